@@ -131,6 +131,11 @@ def extract_defaults():
     if len(rq) != 2 or rq[0] != rq[1] or sorted(rt) != [("<<", "false"), ("<<-", "true")]:
         raise core.CheckBroken("c10 translator: io_here rule not recognised")
 
+    exp = _read("brush-core/src/expansion.rs")
+    trig = re.search(r"let expansion_chars: &\[char\] = if self\.heredoc_mode \{\s*(?://[^\n]*\n\s*)*&\[([^\]]*)\]\s*\} else \{", exp)
+    if not trig:
+        raise core.CheckBroken("c10 translator: heredoc_mode trigger set of WordExpander::basic_expand not recognised")
+
     def chars(lst):
         out = []
         for lit in re.findall(r"'(\\?.)'", lst):
@@ -160,6 +165,8 @@ def extract_defaults():
         "([%s]%%N, %s)" % ("; ".join(str(ord(c)) for c in op), rm) for op, rm in rt))
     lines.append("Definition c10_strip_char : N := %d%%N." % sc[0])
     lines.append("Definition c10_quoting_chars : list N := [%s]%%N." % "; ".join(str(c) for c in chars(qc.group(1))))
+    lines.append("(** characters whose presence makes WordExpander::basic_expand process a here-document body at all *)")
+    lines.append("Definition c10_heredoc_triggers : list N := [%s]%%N." % "; ".join(str(c) for c in chars(trig.group(1))))
     lines.append("Definition c10_requires_expansion_chars : list N := [%s]%%N." % "; ".join(str(c) for c in chars(rq[0])))
     return regen.write_if_changed("C10Defaults.v", "\n".join(lines) + "\n")
 
